@@ -151,6 +151,11 @@ def run_case(case):
             if lib < -12.0:
                 r.count("skipped_saturated_items")   # derivative below 1e-9: output saturated in float64
                 continue
+            if "sigmoid_eps" in me["tags"]:
+                # declared approximation: Sigmoid.inverse clamps its argument to [eps, 1-eps]; an intermediate value
+                # inside that band has zero autograd derivative while the library reports the unclamped formula
+                r.count("skipped_declared_sigmoid_clamp")
+                continue
             if any(float(v) in sp for v in x[i].reshape(-1)):
                 # an element sits exactly on a structured point (clamp / branch boundary of some part of a
                 # composite): autograd's sub-gradient there is an artefact and nudging the composite's input
@@ -253,7 +258,7 @@ def run_spline_fn(case):
             lad = torch.where(art, lad2, lad)
             grad = torch.where(art, grad2, grad)
         ok = torch.isfinite(lad) & torch.isfinite(grad) & (grad > 0)
-        sat = ~ok & (lad < -20)
+        sat = ~ok & (lad < -12)
         r.count("skipped_saturated_items", int(sat.sum()))
         if (~ok & ~sat).any():
             k = int((~ok & ~sat).nonzero()[0])
